@@ -20,6 +20,8 @@ Lemma gen_expand_ok : expand_consts_ok E = true.
 Proof. vm_compute. reflexivity. Qed.
 Lemma gen_lits_ok : nonul (e_close E) /\ nonul (e_nf1 E) /\ nonul (e_nf2 E) /\ nonul (e_f1 E) /\ nonul (e_f2 E) /\ nonul (e_f3 E).
 Proof. repeat split; apply nonulb_spec; vm_compute; reflexivity. Qed.
+Lemma gen_cmdline_ok : cmdline_consts_ok CC = true.
+Proof. vm_compute. reflexivity. Qed.
 Lemma gen_sep_ok : nonul (sep CC).
 Proof. apply nonulb_spec; vm_compute; reflexivity. Qed.
 Lemma gen_unknown_ok : nonul (unknown CC).
